@@ -371,6 +371,9 @@ def run_cap_case(arg):
         finals = {lab: cnt for lab, cnt, sp, term in frames if term == b"\n"}
         pt = finals.get(b"Processing trees")
         if pt is None:
+            fl = [cnt for lab, cnt, sp, term in frames if term == b"\n"]
+            pt = fl[1] if len(fl) >= 2 else None      # phases: blobs, trees, commits, ...
+        if pt is None:
             out["viol"].append(("INCONCLUSIVE", "no 'Processing trees' final frame observed"))
         elif pt != ntrees:
             out["viol"].append(("C05/linear-time/trees-processed-differs-from-distinct-trees", {"case": name, "processed": pt, "distinct": ntrees}))
